@@ -21,6 +21,7 @@ import (
 	"github.com/segmentio/kafka-go/protocol"
 	"github.com/segmentio/kafka-go/zzverif/vhook"
 
+	"verif/engine/racectl"
 	"verif/engine/refwire"
 	"verif/engine/vnet"
 )
@@ -205,6 +206,8 @@ func (c *Cluster) event() {
 
 // Dial is a Dialer.DialFunc / Transport.Dial.
 func (c *Cluster) Dial(ctx context.Context, network, addr string) (net.Conn, error) {
+	racectl.Off() // the brokers' bookkeeping is not synchronisation of the program under test
+	defer racectl.On()
 	vhook.Point(vhook.KEnv, nil)
 	c.mu.Lock()
 	b := c.brokerByAddr(addr)
